@@ -454,7 +454,7 @@ def _pos_neg(test: ast.expr) -> Tuple[str, str]:
         x = _flat(ast.unparse(test.operand))
         return f"not ({x})", x
     x = _flat(ast.unparse(test))
-    return x, f"not ({x})"
+    return (f"({x})" if isinstance(test, ast.BoolOp) else x), f"not ({x})"
 
 
 def decision_rows(fn: ast.FunctionDef) -> List[Tuple[str, str, str]]:
